@@ -234,7 +234,9 @@ class AddField:
         new = 'af%d' % rng.randint(0, 999)
         if any(new in _fnames(x) for x in shape):
             return None
-        typ, val = rng.choice([('integer', 5), ('string', 'k'), ('boolean', True), ('number', 2.5)])
+        typ, val = rng.choice([('integer', 5), ('string', 'k'), ('boolean', True), ('number', 2.5), ('array', [1])])
+        if typ == 'array':
+            new = 'arr' if not any('arr' in _fnames(x) for x in shape) else new
         if len(shape) > 1 and rng.random() < 0.3:
             # several resources edited by one step (all of them, or a list of two)
             names = [x['name'] for x in shape]
